@@ -300,6 +300,18 @@ class RunPlan:
         return path
 
     def write_extra_replay(self, v):
+        req = v.get("request") or {}
+        if req.get("what") == "c13_late_lookup" and v.get("boot"):
+            # minimise the list of looked-up texts and of late imports
+            def fails(rq):
+                r = driver.one(v["boot"], rq)
+                return any(x["signature"] == v["signature"] for x in r.get("violations") or [])
+
+            texts = [(v.get("detail") or {}).get("text")]
+            if not fails(dict(req, texts=texts)):
+                texts, _ = shrink.ddmin(req["texts"], lambda c: fails(dict(req, texts=c)))
+            late, _ = shrink.ddmin(req["late"], lambda c: fails(dict(req, texts=texts, late=c)))
+            v = dict(v, request=dict(req, texts=texts, late=late))
         d = os.path.join(REPLAY_DIR, self.prop)
         os.makedirs(d, exist_ok=True)
         path = os.path.join(d, safe_name(v["signature"], None))
